@@ -159,7 +159,7 @@ class Heap:
     def top(self):
         """every reference handed out so far is below this bound"""
         bt = getattr(self, "block_top", None)
-        return bt if bt is not None else self.base + self.n_alloc + 1
+        return bt if bt is not None else self.base + self.n_alloc
 
     def havoc_alloc(self, interp, tag):
         """an unknown number of allocations has happened (loop iterations): fresh allocation base above the old top"""
